@@ -10,7 +10,8 @@ BOUNDS = {'quick': {'identifier_list_len': 2, 'numeric identifiers': 'full u64',
           'thorough': {'identifier_list_len': '6 (order), 4 (laws on triples, hash)', 'numeric identifiers': 'full u64', 'components': 'u64 <= MAX_SAFE_INTEGER'}}
 OUTSIDE = ['identifier lists longer than the bound', 'contents of alphanumeric identifiers: String comparison is trusted to be byte-wise (abstract ordered tokens)',
            'slice::sort / BinaryHeap consistency follows from the total order by the std contract (not encoded); Iterator::max/min are covered under C14']
-ASSUMPTIONS = ['String: Ord is byte-wise lexicographic (std documentation)', 'Hasher modelled as an uninterpreted mixing function: equal traces give equal hashes',
+ASSUMPTIONS = ['str::parse::<u64> is a contract stub in the identifier-parse group (arbitrary Result); that it succeeds exactly on digit strings below 2^64 is the std contract, spot-checked natively',
+               'String: Ord is byte-wise lexicographic (std documentation)', 'Hasher modelled as an uninterpreted mixing function: equal traces give equal hashes',
                'std models of slice cmp/eq/hash are transcriptions of the pinned nightly rust-src']
 
 
@@ -20,6 +21,7 @@ def groups(tier):
           {'name': 'laws-L%d' % min(L, 4), 'fn': laws_group, 'args': {'L': min(L, 4)}},
           {'name': 'hash-L%d' % min(L, 4), 'fn': hash_group, 'args': {'L': min(L, 4)}}]
     gs.append({'name': 'identifier', 'fn': ident_group, 'args': {}})
+    gs.append({'name': 'identifier-parse', 'fn': ident_parse_group, 'args': {}})
     if tier != 'quick':
         gs.append({'name': 'order-L1', 'fn': order_group, 'args': {'L': 1}})
         gs.append({'name': 'kani-k4', 'fn': kani_group, 'args': {}, 'timeout_s': 1200})
@@ -150,3 +152,70 @@ def ident_group(s):
     s.prove(h, 'Identifier::cmp: numeric below alphanumeric, numerics by value, alphanumerics by string order', [], xy.tag == want)
     s.prove(h, 'Identifier: == iff cmp is Equal; partial_cmp == Some(cmp)', [], AND(e == (xy.tag == 1), is_variant(pc, 'Some'), payload(pc, 'Some')[0].tag == xy.tag))
     s.prove(h, 'Identifier::cmp is antisymmetric and transitive', [], AND(yx.tag == 2 - xy.tag, z3.Implies(AND(xy.tag != 2, yz.tag != 2), xz.tag != 2)))
+
+
+# texts of one prerelease identifier and what SemVer 11.4 makes of them: ('n', value) numeric (digits only, below 2^64), ('s',) alphanumeric
+ID_CASES = [('0', ('n', 0)), ('7', ('n', 7)), ('007', ('n', 7)), ('9007199254740992', ('n', 9007199254740992)), ('9999999999999999999', ('n', 9999999999999999999)),
+            ('10000000000000000000', ('n', 10 ** 19)), ('18446744073709551615', ('n', 2 ** 64 - 1)), ('18446744073709551616', ('s',)),
+            ('00000000000000000005', ('n', 5)), ('0' * 30 + '7', ('n', 7)), ('123456789012345678901234', ('s',)), ('1-', ('s',)), ('-1', ('s',)), ('-', ('s',)),
+            ('a', ('s',)), ('1a', ('s',)), ('0x10', ('s',)), ('1e3', ('s',)), ('A-Z', ('s',))]
+
+
+def ident_parse_group(s):
+    """identifier::{closure#1}: which texts become Numeric (and with which value) and which AlphaNumeric - the one place where text decides precedence.
+    str::parse::<u64> is a contract stub (arbitrary Result); the closure must follow it and nothing else."""
+    import re
+    from ..values import fresh
+    from ..engine import Clo
+    from ..types import STRSLICE
+    h = s.harness(L=1)
+    e = h.eng
+    e.tenv.string_as_slice = True
+    e.tenv.cache.clear()
+    parsed = {}
+
+    def str_parse(eng, callee, args, dest_ts, st, where):
+        wf = []
+        v = fresh(eng.ty(dest_ts), 'parse_u64', wf)
+        eng.assume(wf)
+        h.wf += wf
+        parsed['r'] = v
+        return v
+    e.stubs.append((re.compile(r'^core::str::<impl str>::parse::<u64>$'), str_parse))
+    bodies = [b for nm, bl in e.bodies.items() for b in bl if re.search(r'(^|::)identifier::\{closure#\d+\}$', nm)
+              and len(b.args) == 2 and b.locals.get(b.args[1], '').replace(' ', '') == '&str']
+    if not bodies:
+        s.add(ob='identifier: classification closure found in the MIR', mode='syntactic', solver_s=0.0, kind='prove', verdict='inconclusive',
+              detail='no closure of `identifier` taking &str in the MIR: the text-to-Identifier step is not where the check expects it')
+        return
+    raw = fresh(STRSLICE, 'raw')
+    r = h.call(bodies[0], Clo('identifier', []), raw)
+    pr = parsed.get('r')
+    if pr is None:
+        s.add(ob='identifier: str::parse::<u64> decides Numeric vs AlphaNumeric', mode='syntactic', solver_s=0.0, kind='prove', verdict='inconclusive',
+              detail='the classification closure does not call str::parse::<u64>')
+        return
+    same = lambda a, b: AND(a.fs[0].t == b.fs[0].t, a.fs[1].t == b.fs[1].t, a.fs[2].t == b.fs[2].t)
+
+    def dec(m):
+        return {'abstract': 'identifier classification does not follow str::parse::<u64>', 'len': m.eval(raw.fs[2].t, model_completion=True).as_long(),
+                'parse_ok': bool(z3.is_true(m.eval(is_variant(pr, 'Ok'), model_completion=True)))}
+
+    def replay(case):
+        prog = [{'id': 'i%d' % i, 'op': 'version', 'text': '1.0.0-' + t} for i, (t, _) in enumerate(ID_CASES)]
+
+        def judge(native):
+            bad = []
+            for i, (t, want) in enumerate(ID_CASES):
+                x = native.get('i%d' % i) or {}
+                pre = ((x.get('v') or {}).get('pre')) if x.get('ok') else None
+                exp = [{'n': want[1]}] if want[0] == 'n' else [{'s': t}]
+                if pre != exp:
+                    bad.append('Version::parse(%r).pre_release = %r (SemVer: %s)' % ('1.0.0-' + t, pre, 'numeric %d' % want[1] if want[0] == 'n' else 'alphanumeric'))
+            return ('confirmed' if bad else 'mismatch'), '; '.join(bad[:3]) or 'no corpus identifier reproduces the abstract counterexample'
+        return prog, judge
+    s.cover(h, 'a digit string of 20 characters that parses', [is_variant(pr, 'Ok'), raw.fs[2].t == 20])
+    s.prove(h, 'identifier: every text that parses as u64 becomes Numeric with that value (so numerics compare by value, below alphanumerics)',
+            [is_variant(pr, 'Ok')], AND(is_variant(r, 'Numeric'), payload(r, 'Numeric')[0].t == payload(pr, 'Ok')[0].t), decode=dec, replay=replay)
+    s.prove(h, 'identifier: every other text becomes AlphaNumeric with exactly that text',
+            [is_variant(pr, 'Err')], AND(is_variant(r, 'AlphaNumeric'), same(payload(r, 'AlphaNumeric')[0], raw)), decode=dec, replay=replay)
